@@ -232,8 +232,9 @@ def mirror_descr_tx(kind: int, dv: int, sv: int, mv: int, csv: int, val: str, se
     bumped twice), 9 update the parent and create a child under it, 10 delete two children of one parent, 11 create a child
     and then update the parent (reverse order), 12 ENTITY write of a context descriptor: descriptor updated AND a context state
     the consumer does not know yet created in the same transaction, 13 update of a context descriptor + add_state of a new
-    context state through the transaction, 14 entity write of a metric: descriptor and nested state member).
-    pre: 0 <= kind <= 14
+    context state through the transaction, 14 entity write of a metric: descriptor and nested state member, 15 a metric created
+    below a channel that is removed in the same transaction - sel 0: create first, else remove first).
+    pre: 0 <= kind <= 15
     pre: dv >= 0
     pre: sv >= 0
     pre: mv >= 0
@@ -338,6 +339,18 @@ def mirror_descr_tx(kind: int, dv: int, sv: int, mv: int, csv: int, val: str, se
                 tr.remove_descriptor('m0')
                 tr.remove_descriptor('m1')
                 exp_del, exp_upd = ['m0', 'm1'], None
+            elif kind == 15:
+                nm = dc.StringMetricDescriptorContainer('m9', 'ch0')
+                nm.Unit = pm_types.CodedValue('u')
+                nm.MetricCategory = pm_types.MetricCategory.MEASUREMENT
+                nm.MetricAvailability = pm_types.MetricAvailability.CONTINUOUS
+                first = pick(sel, (0, 1, 1))
+                if first == 0:
+                    tr.add_descriptor(nm, state_container=pm.data_model.get_state_class_for_descriptor(nm)(nm))
+                tr.remove_descriptor('ch0')
+                if first == 1:
+                    tr.add_descriptor(nm, state_container=pm.data_model.get_state_class_for_descriptor(nm)(nm))
+                exp_new = exp_upd = exp_del = None     # created and deleted in one report: only the final mirror state is demanded
             else:
                 nch = dc.ChannelDescriptorContainer('ch9', 'vmd0')
                 nm = dc.StringMetricDescriptorContainer('m9', 'ch9')
@@ -350,6 +363,8 @@ def mirror_descr_tx(kind: int, dv: int, sv: int, mv: int, csv: int, val: str, se
         orc.check(len(cap.sent) >= 1, 'no-report-sent')
         _deliver_all(cap, cm)
         _compare(pm, cm, orc, 'after')
+        if exp_new is None:
+            return orc.result()
         orc.check(notes.flat('new_descriptors_by_handle') == sorted(exp_new), 'notification-mismatch:new_descriptors_by_handle')
         if exp_upd is None:
             orc.check(set(notes.flat('updated_descriptors_by_handle')) == {'ch0'}, 'notification-mismatch:updated_descriptors_by_handle')
